@@ -21,9 +21,7 @@ else
 fi
 cd /verif
 for p in "$@"; do
-  cp -f evidence/$p.json /tmp/.ev.$p.$$ 2>/dev/null
-  out=$(VF_REPO="$wt" ./vcheck "$p" --tier "$tier" 2>&1); rc=$?
+  out=$(VF_REPO="$wt" VF_OUT="$wt/.vfout" ./vcheck "$p" --tier "$tier" 2>&1); rc=$?
   echo "== $p rc=$rc $(echo "$out" | grep -c '^VIOLATION') violation line(s)"
   echo "$out" | grep -E '^(VIOLATION|  kind|KNOWN|HARNESS)' | head -${MUT_LINES:-4}
-  [ -f /tmp/.ev.$p.$$ ] && mv -f /tmp/.ev.$p.$$ evidence/$p.json
 done
